@@ -361,10 +361,15 @@ func (m nsIQMatcher) Match(p stanza.Packet, match *RouteMatch) bool {
 	if !ok {
 		return false
 	}
-	if iq.Payload == nil {
-		return false
+	if iq.Payload != nil {
+		return matchInArray(m, iq.Payload.Namespace())
 	}
-	return matchInArray(m, iq.Payload.Namespace())
+	// A payload the library has no type for (ping, vcard-temp, ...) is kept as a generic node:
+	// its namespace is the namespace of the IQ payload all the same.
+	if iq.Any != nil {
+		return matchInArray(m, iq.Any.XMLName.Space)
+	}
+	return false
 }
 
 // IQNamespaces adds an IQ matcher, expecting both an IQ and a
